@@ -30,6 +30,24 @@ pub fn run(ctx: &mut Ctx) {
         let seed = ctx.rng.next();
         crate::c02::case(ctx, &cfg, &data, "wrap_runs", Sink::Buf, false, seed, "rt,mode,header");
     }
+    // Huffman trees deeper than the 15-bit limit (Fibonacci frequencies): the length limiter must keep
+    // a code for every symbol, end-of-block included
+    for k in 0..(20 * ctx.scale) {
+        let data = plain::gen(&mut ctx.rng, "deep_tree", 60000);
+        let cfg = Cfg { level: ctx.rng.range(1, 10) as u8, strategy: *ctx.rng.pick(&[2u8, 2, 3, 0]), zlib: k % 2 == 0, wb: 15 };
+        let seed = ctx.rng.next();
+        ctx.count("deep_tree_cases");
+        crate::c02::case(ctx, &cfg, &data, "deep_tree", Sink::Buf, false, seed, "rt,mode,header");
+    }
+    // stale hash entries almost a whole dictionary back (level 1 loads up to 4 KiB of lookahead first)
+    for _ in 0..(16 * ctx.scale) {
+        let len = ctx.rng.range(40000, 120000);
+        let data = plain::gen(&mut ctx.rng, "far_trigram", len);
+        let cfg = Cfg { level: *ctx.rng.pick(&[1u8, 1, 1, 2, 6]), strategy: *ctx.rng.pick(&[0u8, 0, 1, 4]), zlib: ctx.rng.chance(1, 2), wb: 15 };
+        let seed = ctx.rng.next();
+        ctx.count("far_trigram_cases");
+        crate::c02::case(ctx, &cfg, &data, "far_trigram", Sink::Buf, false, seed, "rt,mode,header");
+    }
     // redundancy is exploited: x ++ x compresses to well under its own size (checked, not proved)
     let n_ratio = 40 * ctx.scale;
     for _ in 0..n_ratio {
